@@ -228,6 +228,13 @@ def t_run_func(E):
                             'task dies and nothing is ever delivered again' % exc.info.get('origin'))
         if outcome == 'cancelled':
             E.oblige(Qn + '/signals.own_cancellation_is_never_swallowed', z3.BoolVal(kind == 'raise'), props={'C07'})
+        if outcome == 'raise' and kind == 'return':
+            # the wrapped function failed with SOME exception while a cancellation of the task is pending (it may have
+            # been resumed with the CancelledError and reported the abort in its own way): the task must end, not
+            # treat it as one more failed attempt
+            E.oblige(Qn + '/signals.a_call_failing_while_the_task_is_being_cancelled_ends_the_task',
+                     z3.Not(E.w['cancel_req']), props={'C07'},
+                     detail='cancelling the background task always terminates it')
     E.run_paths(body)
 
 
@@ -824,8 +831,11 @@ def t_small(E):
             wf = t.fields['coro']
             E.oblige(fs.qualname + '/ensures.the_timed_coroutine_is_the_one_given', z3.BoolVal(wf.fields['inner'] is coro),
                      props={'C08', 'C03'})
+            tv = wf.fields['timeout']
             E.oblige(fs.qualname + '/ensures.deadline_is_this_objects_timeout',
-                     _real(wf.fields['timeout']) == o.fields['timeout'].t, props={'C08', 'C15'})
+                     z3.BoolVal(False) if isinstance(tv, VNone) else _real(tv) == o.fields['timeout'].t,
+                     props={'C08', 'C15'}, detail='wait_for(..., None) never times out: the quiet period never ends '
+                                                  '(e.g. `self.timeout or None` for timeout=0)')
             E.oblige(fs.qualname + '/ensures.task_belongs_to_the_instances_loop', z3.BoolVal(t.fields['loop'] is o.fields['loop']),
                      props={'C08', 'C03', 'C07'})
 
